@@ -21,6 +21,9 @@ struct vf_config {
 	long step_limit;
 	int log_plain;        /* log compiler-inserted plain accesses to registered objects */
 	int check_plain;      /* check plain accesses against dead objects */
+	int plain_sched;      /* per-mille probability that a plain WRITE by library code to a registered shared object
+				 (waiter records, queue heads …) is a scheduling point: lets another thread run
+				 between two adjacent statements of a section the library believes to be protected */
 	const int *script;    /* scripted schedule (tids; negative = tick), or NULL */
 	int script_len;
 	int fail_malloc_at;   /* fail the k-th (1-based) malloc performed by nsync code; 0 = never */
